@@ -26,6 +26,14 @@ func (fr *FuncRun) resultVal(st *State, sig *types.Signature, hint string) Val {
 
 func (fr *FuncRun) havocResults(st *State, res *types.Tuple, hint string) Val {
 	w := fr.w
+	for i := 0; i < res.Len(); i++ {
+		switch res.At(i).Type().Underlying().(type) {
+		case *types.Map, *types.Chan, *types.Pointer, *types.Slice, *types.Interface:
+			// the call may have allocated what it returns
+			fr.bumpAllocTop()
+			i = res.Len()
+		}
+	}
 	switch res.Len() {
 	case 0:
 		return Val{T: "0", S: sInt}
@@ -120,6 +128,7 @@ func (fr *FuncRun) callCommon(f *Frame, st *State, c *ssa.CallCommon, fnVal Val,
 }
 
 func (fr *FuncRun) bumpCallCount(st *State, name string) {
+	fr.touchCounter("calls:" + name)
 	key := cellKey{0, "calls:" + name}
 	old, ok := st.cells[key]
 	if !ok {
@@ -419,15 +428,15 @@ func (fr *FuncRun) execGo(f *Frame, st *State, x *ssa.Go) {
 	fr.mutexes = savedLocks
 	fr.scout--
 	fr.wsStack = fr.wsStack[:len(fr.wsStack)-1]
-	if fr.spawned == nil {
-		fr.spawned = newWriteSet()
-	}
+	// the thread's writes to objects that existed before (and those of the threads it starts itself) are shared from
+	// here on, on this path
+	add := newWriteSet()
 	for h := range ws.heaps {
 		if h == "Held" {
 			continue
 		}
 		if ws.oldHeaps[h] {
-			fr.spawned.heaps[h] = true
+			add.heaps[h] = true
 		}
 		saved := fr.curWriteFresh
 		fr.curWriteFresh = !ws.oldHeaps[h]
@@ -436,10 +445,11 @@ func (fr *FuncRun) execGo(f *Frame, st *State, x *ssa.Go) {
 	}
 	for cell := range ws.cells {
 		if cell.frame <= f.id && cell.frame != 0 {
-			fr.spawned.cells[cell] = true
+			add.cells[cell] = true
 			fr.noteCellWrite(cell)
 		}
 	}
+	st.spawned = unionWS(unionWS(st.spawned, add), sc.spawned)
 	fr.syncPoint(f, st)
 }
 
@@ -688,4 +698,11 @@ func goOrdinal(fn *ssa.Function, g *ssa.Go) int {
 		}
 	}
 	return 0
+}
+
+func (fr *FuncRun) touchCounter(k string) {
+	if fr.countersTouched == nil {
+		fr.countersTouched = map[string]bool{}
+	}
+	fr.countersTouched[k] = true
 }
